@@ -7,5 +7,6 @@ INVARIANT TrainingReproduced
 INVARIANT SumsToOne
 INVARIANT PromiseKept
 INVARIANT ScoreOfGuess
+INVARIANT OnlyOwnStructure
 INVARIANT TablesSumToOne
 CHECK_DEADLOCK FALSE
